@@ -128,6 +128,7 @@ DEFAULT_OPTS = {
     'vararg_main': True,
     'top_stmts': None,           # number of statements of the outermost block (big programs)
     'stat_bias': None,           # statement kinds given extra weight, e.g. ['shortif'] * 20
+    'if_do': True,               # `if (cond) do` + line break in place of `then` (accepted by picotool on purpose)
     'table_methods': 0.0,        # probability that a table field is `name=function ... end` whose body is block; line-scoped; plain
 }
 
@@ -140,6 +141,7 @@ class Program:
         self.feats = set()
         self.names = []
         self.closers = []
+        self.must_break = set()   # gaps (index of the token after them) that have to hold a line break
         self.tree = None
 
 
@@ -748,8 +750,18 @@ class Gen:
         pairs = []
         i0 = len(self.p.toks)
         self.kw(b'if')
-        e = (self.exp(d - 1))
-        self.kw(b'then')
+        if self.o.get('if_do', True) and not self.in_line and rng.random() < 0.1:
+            # `if (cond) do` + line break: the form picotool's parser accepts on purpose ("oddball carts that exploit an accidental
+            # loophole in short-if"; PICO-8 reads it as `if (cond) then do end`), so `do` ends its line here
+            self.sym(b'(')
+            e = (self.exp(max(d - 2, 0)))
+            self.sym(b')')
+            i_do = self.t('keyword', b'do')
+            self.p.must_break.add(i_do + 1)
+            self.p.feats.add('if-do')
+        else:
+            e = (self.exp(d - 1))
+            self.kw(b'then')
         self._head_scope(i0, i0 + 1)
         pairs.append((e, self.block(d - 1)))
         for _ in range(rng.choice((0, 0, 1, 2))):
